@@ -29,7 +29,7 @@ Ltac dmi :=
       end
   end.
 
-Ltac unf := unfold get_conn, put_conn, log_cb, items_get, items_delete_tomb, items_delete, items_entomb, timer_stop, timer_release,
+Ltac unf := unfold get_conn, put_conn, log_cb, items_get, items_delete_tomb, items_delete_call, items_delete, items_entomb, timer_stop, timer_release,
   timer_new, tomb_count, set_conns, set_items, set_timers, set_next_tm, set_next_call, set_gcs, set_cblog, set_sent, set_panic in *; cbn in *.
 
 Lemma exec_sim : forall cf a b i room, coreq a b ->
@@ -262,13 +262,9 @@ Qed.
 
 (* ---------------------------------------------------------------- one step of the simulation *)
 
-Lemma run_fresh_both : forall cf ls st st', Inv st -> TInv st -> run_fresh cf st ls = Some st' -> Inv st' /\ TInv st'.
-Proof.
-  intros cf ls. induction ls as [|l r IH]; intros st st' HI HT H; cbn in H.
-  - inversion H. subst. split; assumption.
-  - destruct (fresh_label st l) eqn:Ef; [|discriminate]. destruct (step cf st l) as [st1|] eqn:Es; [|discriminate].
-    eapply IH; [eapply step_inv; eassumption|eapply step_tinv; eassumption|exact H].
-Qed.
+Lemma run_fresh_both : forall cf ls st st', Inv st -> TInv st -> LInv st -> run_fresh cf st ls = Some st' ->
+  Inv st' /\ TInv st' /\ LInv st'.
+Proof. intros cf ls st st' HI HT HL H. eapply run_fresh_three; eassumption. Qed.
 
 Lemma run_fresh_app : forall cf a b st, run_fresh cf st (a ++ b) =
   match run_fresh cf st a with Some s => run_fresh cf s b | None => None end.
@@ -550,18 +546,18 @@ Proof.
   - eapply lplain_sim; try eassumption. reflexivity.
 Qed.
 
-Lemma run_sim : forall cf M ls st0 st st', sim M st0 st -> Inv st0 -> TInv st0 ->
+Lemma run_sim : forall cf M ls st0 st st', sim M st0 st -> Inv st0 -> TInv st0 -> LInv st0 ->
   forallb (label_lt M) ls = true -> run_reuse cf st ls = Some st' ->
   exists ls1 st0', run_fresh cf st0 ls1 = Some st0' /\ sim M st0' st'.
 Proof.
-  intros cf M ls. induction ls as [|l r IH]; intros st0 st st' Hsim HI HT Hlt H; cbn in H.
+  intros cf M ls. induction ls as [|l r IH]; intros st0 st st' Hsim HI HT HL Hlt H; cbn in H.
   - inversion H. subst. exists [], st0. split; [reflexivity|exact Hsim].
   - cbn in Hlt. apply andb_true_iff in Hlt. destruct Hlt as [Hl Hr].
     destruct (reuse_guard st l) eqn:Eg; [|discriminate].
     destruct (step cf st l) as [st1|] eqn:Es; [|discriminate].
     destruct (step_sim cf M st0 st l st1 Hsim HI HT Hl Eg Es) as (ls1&st01&R1&Hsim1).
-    destruct (run_fresh_both cf ls1 st0 st01 HI HT R1) as [HI1 HT1].
-    destruct (IH st01 st1 st' Hsim1 HI1 HT1 Hr H) as (ls2&st02&R2&Hsim2).
+    destruct (run_fresh_both cf ls1 st0 st01 HI HT HL R1) as (HI1&HT1&HL1).
+    destruct (IH st01 st1 st' Hsim1 HI1 HT1 HL1 Hr H) as (ls2&st02&R2&Hsim2).
     exists (ls1 ++ ls2), st02. split; [rewrite run_fresh_app, R1; exact R2|exact Hsim2].
 Qed.
 
@@ -591,7 +587,7 @@ Theorem reuse_simulated : forall cf ls st, run_reuse cf init ls = Some st ->
     panicked st = panicked st0.
 Proof.
   intros cf ls st H.
-  destruct (run_sim cf (sup_ids ls) ls init init st (sim_init _) Inv_init TInv_init (sup_ids_ok ls _ (Z.le_refl _)) H)
+  destruct (run_sim cf (sup_ids ls) ls init init st (sim_init _) Inv_init TInv_init LInv_init (sup_ids_ok ls _ (Z.le_refl _)) H)
     as (ls0&st0&R&(Hc&_&_&_)).
   exists ls0, st0. split; [exact R|]. destruct Hc as (C1&C2&C3&C4&C5&C6&C7). repeat split; symmetry; assumption.
 Qed.
@@ -604,7 +600,7 @@ Theorem reuse_simulated_full : forall cf ls st, run_reuse cf init ls = Some st -
     trel (seen st) (threads st0) (threads st) /\ cbrel (cblog st0) (cblog st).
 Proof.
   intros cf ls st H.
-  destruct (run_sim cf (sup_ids ls) ls init init st (sim_init _) Inv_init TInv_init (sup_ids_ok ls _ (Z.le_refl _)) H)
+  destruct (run_sim cf (sup_ids ls) ls init init st (sim_init _) Inv_init TInv_init LInv_init (sup_ids_ok ls _ (Z.le_refl _)) H)
     as (ls0&st0&R&(Hc&Ht&_&Hl)).
   exists ls0, st0. split; [exact R|split; [exact Hc|split; [exact Ht|exact Hl]]].
 Qed.
